@@ -134,7 +134,8 @@ def families(tier):
     k3 = [["k == 3", "i1 <= 0"], ["k == 3", "i1 == 1"], ["k == 3", "i1 == 2"], ["k == 3", "i1 == 3"], ["k == 3", "i1 >= 4"]]
     k2 = [["k == 2", "i1 <= 1"], ["k == 2", "i1 == 2 or i1 == 3"], ["k == 2", "i1 >= 4"]]
     if not thorough:
-        pre += ["v == %d or v == 1 or v == 3" % NOP, "e == 0 or k <= 2", "e == 0 or v == %d" % NOP]
+        pre += ["v == %d or v == 1 or v == 3" % NOP, "e == 0 or k <= 2", "e == 0 or v == %d" % NOP,
+                "m == 0 or (v == %d and e == 0 and sw == 0)" % NOP, "sw == 0 or (v == %d and e == 0 and k <= 2)" % NOP]
         vs = (1, 3, NOP)
         shapes = [["e == 0", "k <= 1"], ["e == 0", "k == 2"]] + [["e == 0"] + q for q in k3] + [["e == 1", "k <= 1"]] + [["e == 1"] + q for q in k2]
     else:
@@ -142,13 +143,20 @@ def families(tier):
         vs = range(NOP + 1)
         shapes = [["e == 0", "k <= 1"], ["e == 0", "k == 2"]] + [["e == 0"] + q for q in k3] + [["e == 1", "k <= 1"]] + [["e == 1"] + q for q in k2]
     parts = []
+    if not thorough:
+        parts += [["v == %d" % NOP, "e == 0", "m == 1", "k <= 1"], ["v == %d" % NOP, "e == 0", "m == 1", "k == 2"],
+                  ["v == %d" % NOP, "e == 0", "m == 1", "k == 3", "i1 <= 2"], ["v == %d" % NOP, "e == 0", "m == 1", "k == 3", "i1 >= 3"],
+                  ["v == %d" % NOP, "e == 0", "sw == 1", "k <= 1"], ["v == %d" % NOP, "e == 0", "sw == 1", "k == 2"]]
     for v in vs:
         for q in shapes:
             if "e == 1" in q and ((not thorough and v != NOP) or (thorough and v not in (NOP, 1, 3))):
                 continue
+            extra = ["m == 0", "sw == 0"] if not thorough else []
             if VAR[v] in ("rel", "cancel", "fail") and "e == 1" in q:
-                parts += [["v == %d" % v, a] + q for a in ("av <= 2", "av == 3", "av >= 4")]
+                parts += [["v == %d" % v, a] + q + extra for a in ("av <= 2", "av == 3", "av >= 4")]
+            elif thorough:
+                parts += [["v == %d" % v] + q + ["m == %d" % mm, "sw == %d" % ss] for mm in (0, 1) for ss in (0, 1)]
             else:
-                parts.append(["v == %d" % v] + q)
+                parts.append(["v == %d" % v] + q + extra)
     return [Family(name="cancel", fn="tpl_cancel", params=P, pre=pre, parts=parts,
                    twin_pre=["v == %d" % NOP, "e == 0", "k == 2"], twin_args=[NOP, 0, 0, 2, 3, 4, 0, 0, 0, 0])]
